@@ -44,10 +44,23 @@ gfail(const char *what, int ti, int fi, int szx, int sw, const char *fmt, ...) {
           sw ? " then SZX 0" : "", msg);
 }
 
+/* an application that also serves unknown paths itself (PUT creates resources, GET answers 4.04 with its own text) and
+ * has NOT asked to handle /.well-known/core (no COAP_RESOURCE_HANDLE_WELLKNOWN_CORE): discovery stays libcoap's job */
+static void
+unk_hnd(coap_resource_t *r, coap_session_t *s, const coap_pdu_t *req, const coap_string_t *q, coap_pdu_t *resp) {
+  (void)r;
+  (void)s;
+  (void)q;
+  coap_pdu_set_code(resp, coap_pdu_get_code(req) == COAP_REQUEST_CODE_GET ? COAP_RESPONSE_CODE_NOT_FOUND : COAP_RESPONSE_CODE_CREATED);
+  coap_add_data(resp, 3, (const uint8_t *)"app");
+}
+
 static void
 case_get(uint64_t idx, void *arg) {
   (void)arg;
   uint64_t x = idx;
+  int unk = (int)(x % 2);
+  x /= 2;
   int sw = (int)(x % 2);
   x /= 2;
   int szi = (int)(x % NSZX);
@@ -72,6 +85,11 @@ case_get(uint64_t idx, void *arg) {
   for (int i = NCAT - 1; i >= 0; i--)
     if (g_get_tab[ti] & (1u << i))
       register_shape(ctx, &CAT[i]);
+  if (unk) {
+    coap_resource_t *u = coap_resource_unknown_init2(unk_hnd, 0);
+    coap_register_request_handler(u, COAP_REQUEST_GET, unk_hnd);
+    coap_add_resource(ctx, u);
+  }
   /* reference: the listing as the in-process API prints it for this query */
   static uint8_t want[8192], got[8192];
   size_t wl = sizeof want;
@@ -227,7 +245,7 @@ main(int argc, char **argv) {
     return 2;
   }
   struct vxp_stats st;
-  struct vxp_config c = {.space = "get:tables x filters x block2", .total = (uint64_t)g_get_ntab * NFILTERS * NSZX * 2, .chunk = 16};
+  struct vxp_config c = {.space = "get:tables x filters x block2", .total = (uint64_t)g_get_ntab * NFILTERS * NSZX * 2 * 2, .chunk = 16};
   vxp_enumerate(&c, case_get, NULL, &st);
   vx_ev_add_states((long long)st.done, (long long)vxp_counter(21), (long long)st.done);
   vx_ev_add_evals((long long)st.done, (long long)vxp_distinct_count());
@@ -237,7 +255,7 @@ main(int argc, char **argv) {
   vx_ev_int("get.size_switch_refused_explicitly", (long long)vxp_counter(22));
   vx_ev_rule("stage c20get: block-wise GET of /.well-known/core from a real libcoap server (COAP_BLOCK_USE_LIBCOAP) by a raw client: tables (all "
              "subsets of size <= 2 of the 12 shapes, thorough: + every 7th subset of size 3; + the table of all 12) x all catalogue filters x "
-             "requested Block2 size {none, 16..1024} x {same size throughout, smallest size after the first block}; re-assembled body compared "
+             "requested Block2 size {none, 16..1024} x {same size throughout, smallest size after the first block} x {no unknown-resource handler, an unknown-resource handler serving GET and PUT that has not asked for /.well-known/core}; re-assembled body compared "
              "byte for byte with the in-process listing of the same table and query; Block2 number / M / size / payload length / Content-Format "
              "of every block; a block past the end must not be served; tables holding the application's own .well-known/core resource are left out; a size switch "
              "that the server refuses with 4.xx counts as an explicit refusal; distinct = distinct re-assembled bodies longer than one smallest block");
